@@ -72,7 +72,7 @@ SPEC = dict(
          'random to 200000. Quick bound: list and slist reach 65537 nodes in every round; the queue reaches 65535/65536/65537 elements in one case '
          'each per run (other queue cases of those slots use N/8), thorough in every round.',
     exhaustive={},
-    require=['index-far-beyond-the-end', 'list-rings-walked', 'slist-walked', 'slist-tail-designates-last-node', 'que-state-compared-with-model', 'que-indexed-access',
+    require=['que-nodes-changed-queues-then-element-size-changed', 'index-far-beyond-the-end', 'list-rings-walked', 'slist-walked', 'slist-tail-designates-last-node', 'que-state-compared-with-model', 'que-indexed-access',
              'que-recycled-node-not-enqueued', 'que-pull-returns-the-element', 'que-sorted-insert-keeps-order-and-elements', 'que-element-swap',
              'que-whole-swap', 'que-drop', 'que-setz', 'que-foreach-macros', 'list-foreach-macros', 'slist-foreach-macros', 'que-destroyed', 'que-ctor-dtor-on-caller-storage',
              'que-pull-from-empty-returns-null',
